@@ -80,6 +80,9 @@ def shard(iterable, k, n):
 
 # derived objects ------------------------------------------------------------
 DERIVE_HOWS = ["copy", "extract", "slice", "mod1", "concat", "gt0", "lt0", "reverse_twice"]
+# "hidden_slots" is opt-in (allow=...): the track itself is returned after one of its extracts was given a feature of
+# its own -- extraction shares the observation objects, so the first observations of the track now carry one value
+# more than the track's feature table lists.  Its listed features and all its values are unchanged.
 
 
 def derive(track, key, allow=None):
@@ -110,6 +113,10 @@ def derive(track, key, allow=None):
         d = track > 0
     elif how == "lt0":
         d = track < 0
+    elif how == "hidden_slots":
+        child = track.extract(0, max(0, n // 2))
+        child.createAnalyticalFeature("__of_the_extract_only", 12345.0)
+        d = track
     else:
         d = track.reverse().reverse()
     if d is None or d.size() != n:
